@@ -1,5 +1,6 @@
 CONSTANTS MaxSteps = 1000
           MaxRows = 0
+          CVariant = "atomic"
           Vals = {0}
 INIT TInit
 NEXT TNext
